@@ -104,9 +104,13 @@ def cells(spec):
         return out
     if conv == "ugrid":
         nodes = g["nodes"]
-        for face in g["faces"]:
+        invalid = set(g.get("invalid") or ())
+        for f, face in enumerate(g["faces"]):
             pts = [nodes[k] for k in face]
-            out.append(None if any(p is None for p in pts) else [tuple(p) for p in pts])
+            if f in invalid or any(p is None for p in pts):
+                out.append(None)       # self-intersecting by construction, or no coordinates
+            else:
+                out.append([tuple(p) for p in pts])
         return out
     raise ValueError(conv)
 
